@@ -30,7 +30,6 @@ PROPS = {
                         "rayon's bridge is exercised only through Producer::split_at/into_iter (the public plumbing API)"],
     },
     "C10": {
-        "claimed": False,
         "lean_props": ["ZarrsModel.Props.C10"],
         "harness": "c10",
         "rule": "exhaustive 1-D enumeration: every dimension kind (fixed 1..3; every composition of totals 0..6 as a varying size list) x array "
